@@ -61,16 +61,17 @@ cpy_t* volatile cpy     = static_cast<cpy_t*>(NM(&::strcpy, &::wcscpy));
 ncpy_t* volatile ncpy   = static_cast<ncpy_t*>(NM(&::strncpy, &::wcsncpy));
 cpy_t* volatile cat     = static_cast<cpy_t*>(NM(&::strcat, &::wcscat));
 ncpy_t* volatile ncat   = static_cast<ncpy_t*>(NM(&::strncat, &::wcsncat));
-chr_t* volatile chr     = static_cast<chr_t*>(NM(&::strchr, &::wcschr));
-chrm_t* volatile chrm   = static_cast<chrm_t*>(NM(&::strchr, &::wcschr));
-chr_t* volatile rchr    = static_cast<chr_t*>(NM(&::strrchr, &::wcsrchr));
-chrm_t* volatile rchrm  = static_cast<chrm_t*>(NM(&::strrchr, &::wcsrchr));
+// (overloaded const/non-const prototypes differ between compilers: go through captureless lambdas)
+chr_t* volatile chr     = [](C* s, ChrArg c) -> C* { return NM(::strchr, ::wcschr)(s, c); };
+chrm_t* volatile chrm   = [](Ch* s, ChrArg c) -> Ch* { return NM(::strchr, ::wcschr)(s, c); };
+chr_t* volatile rchr    = [](C* s, ChrArg c) -> C* { return NM(::strrchr, ::wcsrchr)(s, c); };
+chrm_t* volatile rchrm  = [](Ch* s, ChrArg c) -> Ch* { return NM(::strrchr, ::wcsrchr)(s, c); };
 spn_t* volatile spn     = static_cast<spn_t*>(NM(&::strspn, &::wcsspn));
 spn_t* volatile cspn    = static_cast<spn_t*>(NM(&::strcspn, &::wcscspn));
-find_t* volatile pbrk   = static_cast<find_t*>(NM(&::strpbrk, &::wcspbrk));
-findm_t* volatile pbrkm = static_cast<findm_t*>(NM(&::strpbrk, &::wcspbrk));
-find_t* volatile str    = static_cast<find_t*>(NM(&::strstr, &::wcsstr));
-findm_t* volatile strm  = static_cast<findm_t*>(NM(&::strstr, &::wcsstr));
+find_t* volatile pbrk   = [](C* s, C* t) -> C* { return NM(::strpbrk, ::wcspbrk)(s, t); };
+findm_t* volatile pbrkm = [](Ch* s, C* t) -> Ch* { return NM(::strpbrk, ::wcspbrk)(s, t); };
+find_t* volatile str    = [](C* s, C* t) -> C* { return NM(::strstr, ::wcsstr)(s, t); };
+findm_t* volatile strm  = [](Ch* s, C* t) -> Ch* { return NM(::strstr, ::wcsstr)(s, t); };
 } // namespace ref
 
 // ------------------------------------------------------------------ etl front end (public names only)
